@@ -8,6 +8,7 @@ import (
 	"go/ast"
 	"go/constant"
 	"go/types"
+	"math/big"
 	"strings"
 )
 
@@ -25,6 +26,8 @@ const prelude = `
 (declare-fun snil (Str) Bool)
 (declare-fun mkstr ((Array Int Int) Int Int) Str)
 (declare-fun sconcat (Str Str) Str)
+(declare-fun ashift ((Array Int Int) Int) (Array Int Int))
+(assert (forall ((a (Array Int Int)) (o Int) (j Int)) (! (= (select (ashift a o) j) (select a (+ o j))) :pattern ((select (ashift a o) j)))))
 (define-fun godiv ((a Int) (b Int)) Int (ite (>= a 0) (div a b) (- (div (- a) b))))
 (define-fun gorem ((a Int) (b Int)) Int (ite (>= a 0) (mod a (abs b)) (- (mod (- a) (abs b)))))
 (define-fun str_eq ((s Str) (t Str)) Bool (= s t))
@@ -98,6 +101,22 @@ func beRead(n int) externFn {
 func (f *Frame) writeBE(reg *Cell, off Term, v Term, n int, st *State) {
 	in := f.in
 	old := in.load(st, reg, f).(ArrV)
+	if !off.IsLit() {
+		// symbolic offset: a fresh array with a frame axiom (one quantifier instead of
+		// n nested stores whose indices would all need case splits)
+		na := in.D.fresh("put", old.T.Sort)
+		sum := IntLit(0)
+		for k := 0; k < n; k++ {
+			bk := Select(na, Add(off, IntLit(int64(k))))
+			st.assume(And(Le(IntLit(0), bk), Le(bk, IntLit(255))))
+			sum = Add(sum, Mul(BigLit(pow2(uint(8*(n-1-k)))), bk))
+		}
+		st.assume(Eq(sum, v))
+		j := Term{S: "j", Sort: SInt}
+		st.assume(Forall([]Term{j}, Implies(Or(Lt(j, off), Le(Add(off, IntLit(int64(n))), j)), Eq(Select(na, j), Select(old.T, j))), []Term{Select(na, j)}))
+		st.store[reg] = ArrV{T: na, N: old.N}
+		return
+	}
 	cur := old.T
 	sum := IntLit(0)
 	for k := 0; k < n; k++ {
@@ -234,6 +253,55 @@ func init() {
 		in.arrayRangeAxiomSt(h, types.Typ[types.Uint8], st)
 		in.note("hashing.ComputeHash256Array: uninterpreted function of the bytes (collision freedom NOT assumed)")
 		return []Val{ArrV{T: h, N: 32}}
+	}
+	// math/big.Int as a mathematical integer
+	bigVal := func(f *Frame, v Val, st *State) Term {
+		if p, ok := v.(PtrV); ok {
+			return f.in.load(st, p.To, f).(Sc).T
+		}
+		return v.(Sc).T
+	}
+	bigSet := func(f *Frame, recv Val, t Term, st *State) []Val {
+		p := recv.(PtrV)
+		st.store[p.To] = Sc{f.nameIt(st, "big", t)}
+		return []Val{recv}
+	}
+	const bi = "math/big.(*Int)."
+	externs[bi+"SetUint64"] = func(f *Frame, call *ast.CallExpr, recv Val, args []Val, st *State) []Val {
+		return bigSet(f, recv, args[0].(Sc).T, st)
+	}
+	externs[bi+"SetInt64"] = externs[bi+"SetUint64"]
+	externs[bi+"Set"] = func(f *Frame, call *ast.CallExpr, recv Val, args []Val, st *State) []Val {
+		return bigSet(f, recv, bigVal(f, args[0], st), st)
+	}
+	bigBin := func(op func(a, b Term) Term, needNonZero bool) externFn {
+		return func(f *Frame, call *ast.CallExpr, recv Val, args []Val, st *State) []Val {
+			a, b := bigVal(f, args[0], st), bigVal(f, args[1], st)
+			if needNonZero {
+				f.safe(st, "div0", call.Pos(), Not(Eq(b, IntLit(0))))
+			}
+			return bigSet(f, recv, op(a, b), st)
+		}
+	}
+	externs[bi+"Add"] = bigBin(Add, false)
+	externs[bi+"Sub"] = bigBin(Sub, false)
+	externs[bi+"Mul"] = bigBin(Mul, false)
+	externs[bi+"Div"] = bigBin(EDiv, true) // Euclidean division
+	externs[bi+"Quo"] = bigBin(GoDiv, true)
+	externs[bi+"IsUint64"] = func(f *Frame, call *ast.CallExpr, recv Val, args []Val, st *State) []Val {
+		v := bigVal(f, recv, st)
+		return []Val{Sc{And(Le(IntLit(0), v), Le(v, BigLit(new(big.Int).Sub(pow2(64), big.NewInt(1)))))}}
+	}
+	externs[bi+"Uint64"] = func(f *Frame, call *ast.CallExpr, recv Val, args []Val, st *State) []Val {
+		return []Val{Sc{f.nameIt(st, "bigu64", WrapU(bigVal(f, recv, st), 64))}}
+	}
+	externs[bi+"Sign"] = func(f *Frame, call *ast.CallExpr, recv Val, args []Val, st *State) []Val {
+		v := bigVal(f, recv, st)
+		return []Val{Sc{Ite(Lt(v, IntLit(0)), IntLit(-1), Ite(Eq(v, IntLit(0)), IntLit(0), IntLit(1)))}}
+	}
+	externs[bi+"Cmp"] = func(f *Frame, call *ast.CallExpr, recv Val, args []Val, st *State) []Val {
+		v, y := bigVal(f, recv, st), bigVal(f, args[0], st)
+		return []Val{Sc{Ite(Lt(v, y), IntLit(-1), Ite(Eq(v, y), IntLit(0), IntLit(1)))}}
 	}
 	externsRaw = map[string]func(f *Frame, call *ast.CallExpr, st *State) []Val{}
 	externsRaw["fmt.Errorf"] = func(f *Frame, call *ast.CallExpr, st *State) []Val {
